@@ -3,40 +3,21 @@ C10 - property theorems: rearranging dimensions preserves every element's (name-
 coordinates; every axis travels with its data.
 -/
 import DimModel.Lib.Reshape
+import DimModel.Spec.C10
+import DimModel.Proofs.C10
+import DimModel.Proofs.C10Sq
+import DimModel.Proofs.C10Bc
 namespace DimModel
 open Lib
+open C10
 
 /-- name-addressed access: the element at the position `c d` along every dimension `d`,
 independent of the order in which dimensions are stored -/
 def DimArray.at {α} (a : DimArray α) (c : String → Nat) : α := a.vals.get (a.dims.map c)
 
-/-- `p` is a permutation of `0 .. n-1` -/
-def IsPerm (p : List Nat) (n : Nat) : Prop := p.length = n ∧ p.Nodup ∧ ∀ k ∈ p, k < n
+-- `IsPerm p n` (`p` is a permutation of `0 .. n-1`) is defined in `DimModel/Spec/C10.lean`
 
 /-! ### list helpers (core only) -/
-
-private theorem map_eraseIdx' {α β} (f : α → β) :
-    ∀ (l : List α) (i : Nat), (l.eraseIdx i).map f = (l.map f).eraseIdx i
-  | [], _ => rfl
-  | _ :: _, 0 => rfl
-  | x :: l, i + 1 => by
-    simp only [List.eraseIdx_cons_succ, List.map_cons, map_eraseIdx' f l i]
-
-private theorem map_insertIdx' {α β} (f : α → β) (a : α) :
-    ∀ (l : List α) (i : Nat), (l.insertIdx i a).map f = (l.map f).insertIdx i (f a)
-  | l, 0 => by simp only [List.insertIdx_zero, List.map_cons]
-  | [], i + 1 => by simp only [List.insertIdx_succ_nil, List.map_nil]
-  | x :: l, i + 1 => by
-    simp only [List.insertIdx_succ_cons, List.map_cons, map_insertIdx' f a l i]
-
-private theorem insertIdx_eraseIdx_same {α} (a : α) :
-    ∀ (l : List α) (i : Nat), i < l.length → (l.eraseIdx i).insertIdx i a = l.set i a
-  | [], _, h => absurd h (Nat.not_lt_zero _)
-  | x :: l, 0, _ => by simp only [List.eraseIdx_cons_zero, List.insertIdx_zero, List.set_cons_zero]
-  | x :: l, i + 1, h => by
-    have h' : i < l.length := by simpa using h
-    simp only [List.eraseIdx_cons_succ, List.insertIdx_succ_cons, List.set_cons_succ,
-      insertIdx_eraseIdx_same a l i h']
 
 /-- reading a mapped list at the first position of a member gives the image of that member -/
 private theorem getD_map_idxOf {β} (p : List Nat) (f : Nat → β) (d : Nat) (hmem : d ∈ p) (z : β) :
@@ -64,19 +45,6 @@ private theorem set_map_eq {l : List String} (hn : l.Nodup) (pos : Nat) (hpos : 
     · subst hip; simp only [if_true]
     · have hne : ¬ (l[i] = l[pos]) := fun heq => hip ((List.getElem_inj hn).mp heq).symm
       simp only [hip, hne, if_false]
-
-theorem isPerm_mem {p : List Nat} {n : Nat} (h : IsPerm p n) (d : Nat) (hd : d < n) : d ∈ p := by
-  obtain ⟨hl, hn, hb⟩ := h
-  -- a duplicate-free list of n numbers below n contains every number below n
-  apply Classical.byContradiction
-  intro hnot
-  have hsub : p ⊆ (List.range n).erase d := by
-    intro k hk
-    have hkd : k ≠ d := fun e => hnot (e ▸ hk)
-    exact (List.mem_erase_of_ne hkd).mpr (List.mem_range.mpr (hb k hk))
-  have hle := List.Nodup.length_le_of_subset hn hsub
-  rw [List.length_erase, if_pos (List.mem_range.mpr hd), List.length_range, hl] at hle
-  omega
 
 /-- the dims of a transposed array are the requested permutation of the dims -/
 theorem transposeBy_dims {α} (a : DimArray α) (p : List Nat) :
@@ -248,5 +216,531 @@ theorem rollPerm_isPerm (n : Nat) (axis start : Int) (p : List Nat) (h : rollPer
 /-- non-vacuity: a concrete permutation satisfies `IsPerm` -/
 example : IsPerm [2, 0, 1] 3 := by
   refine ⟨rfl, by decide, by decide⟩
+
+/-! ## End-to-end theorems about the top-level functions, as the user calls them
+
+Vocabulary (`DimModel/Spec/C10.lean`): `coordOf dims j name` is the coordinate of the index `j` along
+the dimension called `name`; `SameByName a r` says that every in-range index `j` of `r` reads the
+element of `a` at the in-range index `i` with `coordOf a.dims i name = coordOf r.dims j name` for
+every dimension name of `a`; `Rearranged a r` adds: the axes of `r` are those of `a` in another
+order (whole: name, labels, kind, metadata), attrs / value kind kept, `r` well formed, and the
+correspondence is onto.  `Resolves a k d`: the key `k` (name, position or negative position)
+designates dimension `d`.  Helper lemmas: `DimModel/Proofs/C10.lean`. -/
+
+/-- the index `i` of `SameByName` is unique: an index is determined by its named coordinates -/
+theorem sameByName_unique {dims : List String} (hn : dims.Nodup) {i i' : List Nat}
+    (hi : i.length = dims.length) (hi' : i'.length = dims.length)
+    (h : ∀ name ∈ dims, coordOf dims i name = coordOf dims i' name) : i = i' :=
+  coordOf_ext hn hi hi' h
+
+/-- `transposeBy` with any permutation is a rearrangement (the general fact behind all of the below) -/
+theorem transposeBy_spec {α} (a : DimArray α) (hw : a.WF) (p : List Nat) (hp : IsPerm p a.ndim) :
+    Rearranged a (transposeBy a p) := transposeBy_rearranged a p hp hw
+
+/-- **transpose by names.**  `a.transpose(*names)` with a non-empty list of names succeeds exactly
+when the names are a rearrangement of `a`'s dimension names (all of them, each once); otherwise it
+raises `ValueError`.  On success the result lists the dimensions in the requested order, is a
+rearrangement of `a` (each axis keeps its labels and metadata), and every element sits at the same
+named coordinates. -/
+theorem transpose_names_spec {α} (a : DimArray α) (hw : a.WF) (names : List String) (hne : names ≠ []) :
+    (names.Perm a.dims →
+      ∃ r, transpose a (some (names.map DimKey.name)) = .ok r ∧ r.dims = names ∧ Rearranged a r) ∧
+    (¬ names.Perm a.dims → transpose a (some (names.map DimKey.name)) = .error .value) := by
+  exact ⟨transpose_names_ok a hw names hne, transpose_names_error a hw.2.1 names hne⟩
+
+/-- **transpose by any mix of names, positions and negative positions.**  If the `k`-th key
+designates dimension `q[k]` and `q` is a permutation, the call succeeds, position `k` of the result
+holds the axis that was at `q[k]` (whole), and the result is a rearrangement of `a`. -/
+theorem transpose_keys_spec {α} (a : DimArray α) (hw : a.WF) (ks : List DimKey) (hne : ks ≠ [])
+    (q : List Nat) (hq : IsPerm q a.ndim) (hl : ks.length = q.length)
+    (h : ∀ k (h1 : k < ks.length) (h2 : k < q.length), Resolves a ks[k] q[k]) :
+    ∃ r, transpose a (some ks) = .ok r ∧
+      (∀ k (hk : k < q.length), r.axes[k]? = a.axes[q[k]]?) ∧
+      r.dims = q.map (fun d => a.dims.getD d "") ∧
+      Rearranged a r := by
+  refine ⟨transposeBy a q, transpose_keys_ok a hw.2.1 ks hne q hq hl h, ?_, ?_,
+    transposeBy_rearranged a q hq hw⟩
+  · intro k hk
+    have hlt : q[k] < a.axes.length := hq.2.2 _ (List.getElem_mem hk)
+    rw [transposeBy_axes_getElem?, List.getElem?_eq_getElem hk, List.getElem?_eq_getElem hlt,
+      Option.map_some, axis_getD_eq a _ hlt]
+  · rw [transposeBy_dims]
+    apply List.map_congr_left
+    intro d hd
+    have hlt : d < a.axes.length := hq.2.2 d hd
+    rw [axis_getD_name a d hlt, List.getD_eq_getElem?_getD,
+      List.getElem?_eq_getElem (by simpa [DimArray.dims] using hlt)]
+    rfl
+
+/-- **names and positions are interchangeable**: two key lists that designate the same dimensions
+give the same result. -/
+theorem transpose_keys_interchangeable {α} (a : DimArray α) (hw : a.WF) (ks ks' : List DimKey)
+    (hne : ks ≠ []) (q : List Nat) (hq : IsPerm q a.ndim) (hl : ks.length = q.length) (hl' : ks'.length = q.length)
+    (h : ∀ k (h1 : k < ks.length) (h2 : k < q.length), Resolves a ks[k] q[k])
+    (h' : ∀ k (h1 : k < ks'.length) (h2 : k < q.length), Resolves a ks'[k] q[k]) :
+    transpose a (some ks) = transpose a (some ks') := by
+  have hne' : ks' ≠ [] := by
+    intro e; subst e
+    have : ks.length = 0 := by rw [hl, ← hl']; rfl
+    exact hne (List.eq_nil_of_length_eq_zero this)
+  rw [transpose_keys_ok a hw.2.1 ks hne q hq hl h, transpose_keys_ok a hw.2.1 ks' hne' q hq hl' h']
+
+/-- **default transpose (`a.T`, `a.transpose()`)**: for up to two dimensions the dimensions are
+reversed (axes travel whole, elements keep their named coordinates); for three and more dimensions
+the library raises `ValueError` ("indicate dimensions to transpose"), it does not reverse.
+`transpose([])` is the same call. -/
+theorem transpose_default_spec {α} (a : DimArray α) (hw : a.WF) :
+    transpose a (some []) = transpose a none ∧
+    (a.ndim ≤ 2 → ∃ r, transpose a none = .ok r ∧ r.axes = a.axes.reverse ∧ Rearranged a r) ∧
+    (2 < a.ndim → transpose a none = .error .value) := by
+  refine ⟨transpose_nil_eq_none a, ?_, ?_⟩
+  · intro h2
+    rcases a with ⟨axes, vals, vkind, attrs⟩
+    match axes, h2, hw with
+    | [], _, hw =>
+      refine ⟨_, rfl, rfl, ?_⟩
+      have := transposeBy_rearranged (⟨[], vals, vkind, attrs⟩ : DimArray α) [] ⟨rfl, List.nodup_nil, by simp⟩ hw
+      refine ⟨List.Perm.refl _, hw, rfl, rfl, ?_, ?_⟩ <;>
+      · intro j hj
+        refine ⟨j, hj, fun name hn => by simp [DimArray.dims] at hn, rfl⟩
+    | [x], _, hw =>
+      have hq : IsPerm [0] (⟨[x], vals, vkind, attrs⟩ : DimArray α).ndim := ⟨rfl, by simp, by simp [DimArray.ndim]⟩
+      have hk := transpose_keys_ok (⟨[x], vals, vkind, attrs⟩ : DimArray α) hw.2.1 [.pos 0] (by simp) [0] hq rfl
+        (by
+          intro k h1 h2
+          have : k = 0 := by simpa using h1
+          subst this
+          exact ⟨by simp [DimArray.ndim], Or.inl rfl⟩)
+      exact ⟨_, hk, rfl, transposeBy_rearranged _ _ hq hw⟩
+    | [x, y], _, hw =>
+      have hq : IsPerm [1, 0] (⟨[x, y], vals, vkind, attrs⟩ : DimArray α).ndim :=
+        ⟨rfl, by simp, by simp [DimArray.ndim]⟩
+      have hk := transpose_keys_ok (⟨[x, y], vals, vkind, attrs⟩ : DimArray α) hw.2.1 [.pos 1, .pos 0] (by simp)
+        [1, 0] hq rfl
+        (by
+          intro k h1 h2
+          have : k = 0 ∨ k = 1 := by simp at h1; omega
+          rcases this with rfl | rfl
+          · exact ⟨by simp [DimArray.ndim], Or.inl rfl⟩
+          · exact ⟨by simp [DimArray.ndim], Or.inl rfl⟩)
+      exact ⟨_, hk, rfl, transposeBy_rearranged _ _ hq hw⟩
+    | _ :: _ :: _ :: _, h2, _ => simp [DimArray.ndim] at h2
+  · intro h3
+    have e2 : (a.ndim == 2) = false := by simp; omega
+    have e1 : (a.ndim == 1) = false := by simp; omega
+    have e0 : (a.ndim == 0) = false := by simp; omega
+    simp only [transpose, e2, e1, e0, Bool.false_eq_true, if_false, bind, Except.bind]
+
+/-- **swapaxes** (names, positions, negative positions, mixed): exactly the two designated
+dimensions are exchanged, all others stay in place, and the result is a rearrangement of `a`. -/
+theorem swapaxes_spec {α} (a : DimArray α) (hw : a.WF) (k1 k2 : DimKey) (d1 d2 : Nat)
+    (h1 : Resolves a k1 d1) (h2 : Resolves a k2 d2) :
+    ∃ r, swapaxes a k1 k2 = .ok r ∧
+      r.axes[d1]? = a.axes[d2]? ∧ r.axes[d2]? = a.axes[d1]? ∧
+      (∀ k, k ≠ d1 → k ≠ d2 → r.axes[k]? = a.axes[k]?) ∧
+      r.axes.length = a.axes.length ∧
+      Rearranged a r := by
+  have hq := isPerm_swap h1.1 h2.1 (d1 := d1) (d2 := d2)
+  have key : ∀ k, (transposeBy a ((List.range a.ndim).map (swapFn d1 d2))).axes[k]? = a.axes[swapFn d1 d2 k]? := by
+    intro k
+    rw [transposeBy_axes_getElem?, List.getElem?_map]
+    by_cases hk : k < a.ndim
+    · have hlt := swapFn_lt h1.1 h2.1 hk (d1 := d1) (d2 := d2)
+      rw [List.getElem?_eq_getElem (by simpa using hk), List.getElem_range, Option.map_some, Option.map_some,
+        axis_getD_eq a _ hlt, List.getElem?_eq_getElem hlt]
+    · have hge : a.axes.length ≤ k := Nat.le_of_not_lt hk
+      have e : swapFn d1 d2 k = k := by
+        have := h1.1; have := h2.1
+        unfold swapFn; grind
+      rw [e, List.getElem?_eq_none (by simpa [DimArray.ndim] using hge), List.getElem?_eq_none hge]; rfl
+  refine ⟨_, swapaxes_ok a hw.2.1 k1 k2 d1 d2 h1 h2, ?_, ?_, ?_, ?_, transposeBy_rearranged a _ hq hw⟩
+  · rw [key]; simp [swapFn]
+  · rw [key]; congr 1; unfold swapFn; grind
+  · intro k hk1 hk2; rw [key]; simp [swapFn, hk1, hk2]
+  · simp [transposeBy, DimArray.ndim]
+
+/-- names and positions are interchangeable for `swapaxes` as well -/
+theorem swapaxes_keys_interchangeable {α} (a : DimArray α) (hw : a.WF) (k1 k2 k1' k2' : DimKey) (d1 d2 : Nat)
+    (h1 : Resolves a k1 d1) (h2 : Resolves a k2 d2) (h1' : Resolves a k1' d1) (h2' : Resolves a k2' d2) :
+    swapaxes a k1 k2 = swapaxes a k1' k2' := by
+  rw [swapaxes_ok a hw.2.1 k1 k2 d1 d2 h1 h2, swapaxes_ok a hw.2.1 k1' k2' d1 d2 h1' h2']
+
+/-- **rollaxis**: the designated axis `d` is taken out and put back at position `rollDest d s`
+(`s` = `start`, possibly counted from the end; `np.rollaxis`'s rule: "rolled until it lies before
+position `start`"), the other axes keep their relative order, and the result is a rearrangement. -/
+theorem rollaxis_spec {α} (a : DimArray α) (hw : a.WF) (k : DimKey) (start : Int) (d s : Nat)
+    (hk : Resolves a k d)
+    (hst : (start = (s : Int) ∧ s ≤ a.ndim) ∨ (start = (s : Int) - (a.ndim : Int) ∧ s < a.ndim))
+    (ax : Axis) (hax : a.axes[d]? = some ax) :
+    ∃ r, rollaxis a k start = .ok r ∧
+      r.axes = (a.axes.eraseIdx d).insertIdx (rollDest d s) ax ∧
+      Rearranged a r := by
+  have hax' : ax = a.axes.getD d default := by
+    rw [List.getD_eq_getElem?_getD, hax]; rfl
+  subst hax'
+  have hs : s ≤ a.ndim := by rcases hst with ⟨_, h⟩ | ⟨_, h⟩ <;> omega
+  have hrp := rollPerm_ok a.ndim (d : Int) (s : Int) d s hk.1 (Or.inl rfl) (Or.inl ⟨rfl, hs⟩)
+  have hq := rollPerm_isPerm _ _ _ _ hrp
+  refine ⟨_, rollaxis_ok a hw.2.1 k start d s hk hst, ?_, transposeBy_rearranged a _ hq hw⟩
+  exact roll_axes a d _ hk.1
+
+/-- `np.rollaxis`'s documented rule, read off the axes list above: the rolled axis sits at
+`rollDest d s`, and when `start` designates another dimension `s` the rolled axis lies immediately
+before the axis that was at `s` ("rolled until it lies before position `start`"). -/
+theorem rollaxis_lands_before {α} (a : DimArray α) (d s : Nat) (hd : d < a.axes.length) (hs : s ≤ a.axes.length)
+    (ax : Axis) (r : DimArray α) (hr : r.axes = (a.axes.eraseIdx d).insertIdx (rollDest d s) ax) :
+    r.axes[rollDest d s]? = some ax ∧
+    (s < a.axes.length → s ≠ d → r.axes[rollDest d s + 1]? = a.axes[s]?) := by
+  have hle : rollDest d s ≤ (a.axes.eraseIdx d).length := by
+    rw [List.length_eraseIdx_of_lt hd]; exact rollDest_le hd hs
+  refine ⟨?_, ?_⟩
+  · rw [hr, List.getElem?_insertIdx_self, if_pos hle]
+  · intro hsl hsd
+    rw [hr, List.getElem?_insertIdx_of_gt (Nat.lt_succ_self _), Nat.succ_sub_one, List.getElem?_eraseIdx]
+    unfold rollDest
+    by_cases c : s > d
+    · rw [if_pos c, if_neg (by omega)]
+      congr 1; omega
+    · rw [if_neg c, if_pos (by omega)]
+
+/-! ### squeeze / newaxis / repeat, end to end
+
+`SameOn names a r`: every in-range index of `r` reads the element of `a` at the in-range index with
+the same coordinate along every dimension in `names`.  For the dimensions of `a` that are *not*
+listed the theorems below always say that they have a single position, so the index into `a` is
+pinned there as well (to 0). -/
+
+/-- **squeeze(axis)** (by name, position or negative position): if the designated dimension has a
+single position it is removed - the other axes stay, whole and in order - and the elements are the
+same, addressed by the remaining names (both ways: nothing lost); otherwise `ValueError`. -/
+theorem squeeze_axis_spec {α} (a : DimArray α) (hw : a.WF) (k : DimKey) (d : Nat) (hk : Resolves a k d)
+    (ax : Axis) (hax : a.axes[d]? = some ax) :
+    (ax.size = 1 →
+      ∃ r, squeeze a (some k) = .ok r ∧ r.axes = a.axes.eraseIdx d ∧
+        r.WF ∧ r.attrs = a.attrs ∧ r.vkind = a.vkind ∧
+        SameOn r.dims a r ∧ SameOn r.dims r a) ∧
+    (ax.size ≠ 1 → squeeze a (some k) = .error .value) := by
+  have hd : d < a.axes.length := hk.1
+  have hax' : ax = a.axes.getD d default := by
+    rw [List.getD_eq_getElem?_getD, hax]; rfl
+  subst hax'
+  refine ⟨?_, squeeze_some_error a hw.2.1 k d hk⟩
+  intro h1
+  have hdl : d < a.vals.shape.length := by rw [hw.1]; simpa using hd
+  have hs1 : a.vals.shape[d]? = some 1 := by
+    rw [hw.1, List.getElem?_map, List.getElem?_eq_getElem hd, Option.map_some, ← axis_getD_eq a d hd, h1]
+  refine ⟨squeezeAt a d, squeeze_some_ok a hw.2.1 k d hk h1, rfl, squeezeAt_wf a d hw, rfl, rfl, ?_, ?_⟩
+  · rw [squeezeAt_dims]; exact squeezeAt_sameOn a d hw.2.1 hdl hs1
+  · rw [squeezeAt_dims]; exact squeezeAt_sameOn_rev a d hw.2.1 hdl hs1
+
+/-- **squeeze()**: all dimensions with a single position are removed, the others stay (whole, in
+order); the elements are the same, addressed by the remaining names (both ways). Never fails. -/
+theorem squeeze_all_spec {α} (a : DimArray α) (hw : a.WF) :
+    ∃ r, squeeze a none = .ok r ∧ r.axes = a.axes.filter (fun ax => ax.size != 1) ∧
+      r.WF ∧ r.attrs = a.attrs ∧ r.vkind = a.vkind ∧
+      SameOn r.dims a r ∧ SameOn r.dims r a := by
+  obtain ⟨h1, h2, h3⟩ := squeezeAll_sameOn a _ hw (squeeze_none_eq a)
+  obtain ⟨h4, h5, h6⟩ := squeezeAll_wf a _ hw (squeeze_none_eq a)
+  exact ⟨_, squeeze_none_eq a, h1, h4, h5, h6, h2, h3⟩
+
+/-- **repeat(values, axis)**: only a dimension with a single position can be repeated
+(`ValueError` otherwise).  The designated axis is replaced by the new labels under the same
+dimension name, the other axes stay; every element of the result is the element of `a` at the same
+coordinates along the *other* dimensions - so the result is constant along the repeated dimension
+(replication) - and, when there is at least one new label, every element of `a` is found in the result. -/
+theorem repeat_spec {α} (a : DimArray α) (hw : a.WF) (newax : Axis) (hpl : newax.members = [])
+    (k : DimKey) (d : Nat) (hk : Resolves a k d) (ax : Axis) (hax : a.axes[d]? = some ax) :
+    (ax.size = 1 →
+      ∃ r, repeatAxis a newax k = .ok r ∧
+        r.axes = a.axes.set d { newax with name := ax.name } ∧
+        r.WF ∧ r.attrs = a.attrs ∧ r.vkind = a.vkind ∧
+        SameOn (a.dims.eraseIdx d) a r ∧
+        (∀ j j', InRange r.vals.shape j → InRange r.vals.shape j' →
+          (∀ name ∈ a.dims.eraseIdx d, coordOf r.dims j name = coordOf r.dims j' name) →
+          r.vals.get j = r.vals.get j') ∧
+        (newax.labels ≠ [] → SameOn a.dims r a)) ∧
+    (ax.size ≠ 1 → repeatAxis a newax k = .error .value) := by
+  have hd : d < a.axes.length := hk.1
+  have hax' : ax = a.axes.getD d default := by
+    rw [List.getD_eq_getElem?_getD, hax]; rfl
+  subst hax'
+  refine ⟨?_, repeatAxis_error a hw.2.1 newax k d hk⟩
+  intro h1
+  have hs1 : a.vals.shape[d]? = some 1 := by
+    rw [hw.1, List.getElem?_map, List.getElem?_eq_getElem hd, Option.map_some, ← axis_getD_eq a d hd, h1]
+  have hso := repeatAt_sameOn a d newax hw.2.1 hs1
+  refine ⟨repeatAt a d newax, repeatAxis_ok a hw.2.1 newax k d hk h1, rfl, repeatAt_wf a d newax hw hpl,
+    rfl, rfl, hso, ?_, repeatAt_sameOn_rev a d newax hs1⟩
+  intro j j' hj hj' hag
+  apply sameOn_replicated a _ _ hw hso _ j j' hj hj' hag
+  intro ax hax hnot
+  -- an axis whose name is not among the other dimensions is the repeated one
+  obtain ⟨m, hm, rfl⟩ := List.getElem_of_mem hax
+  by_cases hmd : m = d
+  · subst hmd; rw [← axis_getD_eq a m hm]; exact h1
+  · exfalso
+    apply hnot
+    apply List.mem_eraseIdx_iff_getElem?.mpr
+    exact ⟨m, hmd, by simp [DimArray.dims, List.getElem?_eq_getElem hm]⟩
+
+/-- **newaxis(name, pos)** (`pos` a position `0 .. ndim`, or `-1` for the end): a new dimension
+with the single label `None` is inserted at `pos`, the other axes stay (whole, in order); the
+elements are the same, addressed by the old names (both ways).  A name already present: `ValueError`. -/
+theorem newaxis_spec {α} (a : DimArray α) (hw : a.WF) (name : String) (hne : name ≠ "") (pos : Int) (p : Nat)
+    (hp : p ≤ a.ndim) (hpos : pos = (p : Int) ∨ (pos = -1 ∧ p = a.ndim)) :
+    (name ∉ a.dims →
+      ∃ r, newaxis a name pos none = .ok r ∧ r.axes = a.axes.insertIdx p (noneAxis name) ∧
+        r.WF ∧ r.attrs = a.attrs ∧ r.vkind = a.vkind ∧
+        SameOn a.dims a r ∧ SameOn a.dims r a) ∧
+    (name ∈ a.dims → ∀ v, newaxis a name pos v = .error .value) := by
+  refine ⟨?_, fun h v => newaxis_dup_error a name pos v h⟩
+  intro hnew
+  have hp' : p ≤ a.axes.length := hp
+  have hpl : p ≤ a.vals.shape.length := by rw [hw.1]; simpa using hp'
+  obtain ⟨s1, s2⟩ := insertAt_sameOn a p (noneAxis name) hw.2.1 hpl hnew
+  exact ⟨insertAt a p (noneAxis name), newaxis_none_ok a name pos p hnew hp hpos, rfl,
+    insertAt_wf a p (noneAxis name) hw hnew hne rfl, rfl, rfl, s1, s2⟩
+
+/-- **newaxis(name, values, pos)**: the new dimension carries the given labels and the array is
+replicated along it: every element of the result is the element of `a` at the same coordinates
+along `a`'s dimensions, whatever the position along the new dimension. -/
+theorem newaxis_values_spec {α} (a : DimArray α) (hw : a.WF) (name : String) (hne : name ≠ "") (pos : Int) (p : Nat)
+    (v : Axis) (hpl : v.members = [])
+    (hp : p ≤ a.ndim) (hpos : pos = (p : Int) ∨ (pos = -1 ∧ p = a.ndim)) (hnew : name ∉ a.dims) :
+    ∃ r, newaxis a name pos (some v) = .ok r ∧ r.axes = a.axes.insertIdx p { v with name := name } ∧
+      r.WF ∧ r.attrs = a.attrs ∧ r.vkind = a.vkind ∧
+      SameOn a.dims a r ∧ (v.labels ≠ [] → SameOn a.dims r a) := by
+  have hp' : p ≤ a.axes.length := hp
+  have hpl' : p ≤ a.vals.shape.length := by rw [hw.1]; simpa using hp'
+  obtain ⟨s1, s2⟩ := insertAt_sameOn a p (noneAxis name) hw.2.1 hpl' hnew
+  have hwo := insertAt_wf a p (noneAxis name) hw hnew hne rfl
+  have hres : Resolves (insertAt a p (noneAxis name)) (.pos p) p := by
+    refine ⟨?_, Or.inl rfl⟩
+    show p < (a.axes.insertIdx p (noneAxis name)).length
+    rw [List.length_insertIdx_of_le_length hp']; omega
+  have hax : (insertAt a p (noneAxis name)).axes.getD p default = noneAxis name := by
+    show (a.axes.insertIdx p (noneAxis name)).getD p default = _
+    rw [List.getD_eq_getElem?_getD, List.getElem?_insertIdx_self, if_pos hp']; rfl
+  have hsz : ((insertAt a p (noneAxis name)).axes.getD p default).size = 1 := by rw [hax]; rfl
+  have hs1 : (insertAt a p (noneAxis name)).vals.shape[p]? = some 1 := by
+    show (a.vals.shape.insertIdx p 1)[p]? = some 1
+    rw [List.getElem?_insertIdx_self, if_pos hpl']
+  have he : (insertAt a p (noneAxis name)).dims.eraseIdx p = a.dims := by
+    rw [insertAt_dims, List.eraseIdx_insertIdx_self]
+  have r1 := repeatAt_sameOn (insertAt a p (noneAxis name)) p v hwo.2.1 hs1
+  rw [he] at r1
+  refine ⟨repeatAt (insertAt a p (noneAxis name)) p v, ?_, ?_, repeatAt_wf _ p v hwo hpl, rfl, rfl,
+    s1.trans r1, ?_⟩
+  · rw [newaxis_some_eq a name pos p v hnew hp hpos]
+    exact repeatAxis_ok _ hwo.2.1 v (.pos p) p hres hsz
+  · show (a.axes.insertIdx p (noneAxis name)).set p { v with name := ((insertAt a p (noneAxis name)).axes.getD p default).name } = _
+    rw [hax, set_insertIdx_self]; rfl
+  · intro hv
+    have r2 := repeatAt_sameOn_rev (insertAt a p (noneAxis name)) p v hs1 hv
+    have : ∀ x ∈ a.dims, x ∈ (insertAt a p (noneAxis name)).dims := by
+      intro x hx
+      rw [← he] at hx
+      exact mem_of_mem_eraseIdx' hx
+    exact (r2.mono this).trans s2
+
+/-! ### broadcast, end to end
+
+`a.broadcast(target)` with the target given as a list of axes.  Hypotheses: plain (ungrouped) axes on
+both sides, distinct target names, and target names that the library does not read as grouped names
+(`PlainName`: not empty, no comma).  `properDims a` are the names of `a`'s dimensions that do not
+have exactly one position; `bcastAxis a t` (`DimModel/Spec/C10.lean`) is the axis the result gets
+for the target axis `t`. -/
+
+/-- **broadcast.**  It succeeds exactly when every dimension of `a` that the target lacks has a
+single position (it is squeezed away); otherwise `ValueError`.  On success:
+* the result's dimensions are the target's, in the target's order;
+* the axis at the place of the target axis `t` is `bcastAxis a t`: the target's axis when `a` has no
+  dimension of that name, or when `a`'s has a single label and the target's has not; `a`'s own axis
+  (whole: labels, kind, metadata - *not* compared with the target's labels) otherwise;
+* metadata and value kind are kept, the result is well formed;
+* every element of the result is the element of `a` at the same coordinate along each of `a`'s
+  dimensions with more than one position (`a`'s other dimensions have a single position, so the
+  index into `a` is fully determined);
+* hence replication: two positions of the result that agree along those dimensions hold the same
+  value - the result is constant along every dimension `a` lacks and along every repeated one. -/
+theorem broadcast_spec {α} (a : DimArray α) (hw : a.WF) (hpa : PlainAxes a.axes) (target : List Axis)
+    (hpt : PlainAxes target) (hnd : (target.map (·.name)).Nodup) (hpn : ∀ t ∈ target, PlainName t.name) :
+    ((∀ ax ∈ a.axes, ax.name ∉ target.map (·.name) → ax.size = 1) →
+      ∃ r, broadcast a target = .ok r ∧ r.dims = target.map (·.name) ∧
+        (∀ (k : Nat) (t : Axis), target[k]? = some t → r.axes[k]? = some (bcastAxis a t)) ∧
+        r.WF ∧ r.attrs = a.attrs ∧ r.vkind = a.vkind ∧
+        SameOn (properDims a) a r ∧
+        (∀ j j', InRange r.vals.shape j → InRange r.vals.shape j' →
+          (∀ name ∈ properDims a, coordOf r.dims j name = coordOf r.dims j' name) →
+          r.vals.get j = r.vals.get j')) ∧
+    ((∃ ax ∈ a.axes, ax.name ∉ target.map (·.name) ∧ ax.size ≠ 1) → broadcast a target = .error .value) := by
+  refine ⟨?_, broadcast_error a hw hpa target hnd hpn⟩
+  intro hfit
+  obtain ⟨r, h1, h2, h3, h4, h5, h6, h7⟩ := broadcast_ok a hw hpa target hpt hnd hpn hfit
+  refine ⟨r, h1, h2, h3, h4, h5, h6, h7, ?_⟩
+  intro j j' hj hj' hag
+  apply sameOn_replicated a r _ hw h7 _ j j' hj hj' hag
+  intro ax hax hnot
+  exact Classical.byContradiction fun hne => hnot ((mem_properDims a _).mpr ⟨ax, hax, hne, rfl⟩)
+
+/-- in `SameOn names a r` the index into `a` is unique as soon as the dimensions of `a` outside
+`names` have a single position (used for squeeze / repeat / broadcast): the coordinates along
+`names` are prescribed and the other in-range coordinates can only be 0. -/
+theorem sameOn_unique {α} (a : DimArray α) (hw : a.WF) (names : List String)
+    (hsing : ∀ ax ∈ a.axes, ax.name ∉ names → ax.size = 1) (i i' : List Nat)
+    (hi : InRange a.vals.shape i) (hi' : InRange a.vals.shape i')
+    (h : ∀ name ∈ names, coordOf a.dims i name = coordOf a.dims i' name) : i = i' := by
+  -- instance of the replication argument with `r := a`
+  obtain ⟨hs, hn, _⟩ := hw
+  have hn : a.dims.Nodup := hn
+  have hil := inRange_length' _ _ hi
+  have hil' := inRange_length' _ _ hi'
+  apply List.ext_getElem?
+  intro k
+  by_cases hk : k < a.axes.length
+  · have hkd : k < a.dims.length := by simpa [DimArray.dims] using hk
+    by_cases hN : a.dims[k] ∈ names
+    · have e := h _ hN
+      unfold coordOf at e
+      rwa [idxOf_getElem_nodup hn k hkd] at e
+    · have h1 : a.axes[k].size = 1 := by
+        apply hsing _ (List.getElem_mem hk)
+        have : a.axes[k].name = a.dims[k] := by simp [DimArray.dims]
+        rw [this]; exact hN
+      have hsk : a.vals.shape[k]? = some 1 := by
+        rw [hs, List.getElem?_map, List.getElem?_eq_getElem hk, Option.map_some, h1]
+      obtain ⟨x, hx, hxl⟩ := inRange_getElem? _ _ k 1 hi hsk
+      obtain ⟨x', hx', hxl'⟩ := inRange_getElem? _ _ k 1 hi' hsk
+      rw [hx, hx']
+      congr 1; omega
+  · have hsl : a.vals.shape.length = a.axes.length := by rw [hs]; simp
+    rw [List.getElem?_eq_none (by omega), List.getElem?_eq_none (by omega)]
+
+/-! ### non-vacuity: the hypotheses of the end-to-end theorems on a concrete 3-d array -/
+
+/-- a 3-d test array: x (2 labels), y (3 labels, with axis metadata), z (1 label); the element at
+`[i, j, k]` is its flat position -/
+def exC10 : DimArray Nat :=
+  { axes := [{ name := "x", labels := [.num 1, .num 2], kind := .i },
+             { name := "y", labels := [.str "a", .str "b", .str "c"], kind := .U, attrs := [("units", 1)] },
+             { name := "z", labels := [.num 7], kind := .f }]
+    vals := { shape := [2, 3, 1], get := fun j => ravel [2, 3, 1] j }
+    attrs := [("title", 5)] }
+
+theorem exC10_wf : exC10.WF := ⟨rfl, by decide, by decide⟩
+
+/-- transpose by names: a rearrangement of the names succeeds ... -/
+example : ∃ r, transpose exC10 (some [.name "z", .name "x", .name "y"]) = .ok r ∧
+    r.dims = ["z", "x", "y"] ∧ Rearranged exC10 r :=
+  (transpose_names_spec exC10 exC10_wf ["z", "x", "y"] (by decide)).1 (by decide)
+
+/-- ... and a list that is not a rearrangement of all names raises `ValueError` -/
+example : transpose exC10 (some [.name "z", .name "x"]) = .error .value :=
+  (transpose_names_spec exC10 exC10_wf ["z", "x"] (by decide)).2 (by decide)
+
+example : transpose exC10 (some [.name "z", .name "x", .name "x"]) = .error .value :=
+  (transpose_names_spec exC10 exC10_wf ["z", "x", "x"] (by decide)).2 (by decide)
+
+/-- keys resolve: a name, a negative position, a position -/
+example : Resolves exC10 (.name "z") 2 ∧ Resolves exC10 (.pos (-3)) 0 ∧ Resolves exC10 (.pos 1) 1 :=
+  ⟨⟨by decide, rfl⟩, ⟨by decide, Or.inr (by decide)⟩, ⟨by decide, Or.inl rfl⟩⟩
+
+/-- transpose by a mix of name / negative position / position -/
+example : ∃ r, transpose exC10 (some [.name "z", .pos (-3), .pos 1]) = .ok r ∧
+    (∀ k (hk : k < 3), r.axes[k]? = exC10.axes[[2, 0, 1][k]]?) ∧
+    r.dims = ["z", "x", "y"] ∧ Rearranged exC10 r := by
+  have h := transpose_keys_spec exC10 exC10_wf [.name "z", .pos (-3), .pos 1] (by decide) [2, 0, 1]
+    ⟨rfl, by decide, by decide⟩ rfl (by
+      intro k h1 h2
+      have : k = 0 ∨ k = 1 ∨ k = 2 := by simp at h1; omega
+      rcases this with rfl | rfl | rfl
+      · show Resolves exC10 (.name "z") 2
+        exact ⟨by decide, rfl⟩
+      · show Resolves exC10 (.pos (-3)) 0
+        exact ⟨by decide, Or.inr (by decide)⟩
+      · show Resolves exC10 (.pos 1) 1
+        exact ⟨by decide, Or.inl rfl⟩)
+  exact h
+
+/-- default transpose: the 3-d array is refused, its 2-d squeeze is reversed -/
+example : transpose exC10 none = .error .value := (transpose_default_spec exC10 exC10_wf).2.2 (by decide)
+
+/-- swapaxes by a name and a negative position -/
+example : ∃ r, swapaxes exC10 (.name "x") (.pos (-1)) = .ok r ∧
+    r.axes[0]? = exC10.axes[2]? ∧ r.axes[2]? = exC10.axes[0]? ∧
+    (∀ k, k ≠ 0 → k ≠ 2 → r.axes[k]? = exC10.axes[k]?) ∧ r.axes.length = exC10.axes.length ∧
+    Rearranged exC10 r :=
+  swapaxes_spec exC10 exC10_wf (.name "x") (.pos (-1)) 0 2 ⟨by decide, rfl⟩ ⟨by decide, Or.inr (by decide)⟩
+
+/-- rollaxis of `z` to the front, and to the position counted from the end -/
+example : ∃ r, rollaxis exC10 (.name "z") 0 = .ok r ∧
+    r.axes = (exC10.axes.eraseIdx 2).insertIdx (rollDest 2 0) { name := "z", labels := [.num 7], kind := .f } ∧
+    Rearranged exC10 r :=
+  rollaxis_spec exC10 exC10_wf (.name "z") 0 2 0 ⟨by decide, rfl⟩ (Or.inl ⟨rfl, by decide⟩) _ rfl
+
+example : ∃ r, rollaxis exC10 (.pos 0) (-1) = .ok r ∧
+    r.axes = (exC10.axes.eraseIdx 0).insertIdx (rollDest 0 2) { name := "x", labels := [.num 1, .num 2], kind := .i } ∧
+    Rearranged exC10 r :=
+  rollaxis_spec exC10 exC10_wf (.pos 0) (-1) 0 2 ⟨by decide, Or.inl rfl⟩ (Or.inr ⟨by decide, by decide⟩) _ rfl
+
+/-- squeeze: `z` has a single position, `x` has not -/
+example : ∃ r, squeeze exC10 (some (.name "z")) = .ok r ∧ r.axes = exC10.axes.eraseIdx 2 ∧
+    r.WF ∧ r.attrs = exC10.attrs ∧ r.vkind = exC10.vkind ∧ SameOn r.dims exC10 r ∧ SameOn r.dims r exC10 :=
+  (squeeze_axis_spec exC10 exC10_wf (.name "z") 2 ⟨by decide, rfl⟩ _ rfl).1 (by decide)
+
+example : squeeze exC10 (some (.pos 0)) = .error .value :=
+  (squeeze_axis_spec exC10 exC10_wf (.pos 0) 0 ⟨by decide, Or.inl rfl⟩ _ rfl).2 (by decide)
+
+/-- repeat `z` three times -/
+example : ∃ r, repeatAxis exC10 { name := "whatever", labels := [.num 1, .num 2, .num 3], kind := .i } (.pos (-1)) = .ok r ∧
+    r.axes = exC10.axes.set 2 { name := "z", labels := [.num 1, .num 2, .num 3], kind := .i } := by
+  obtain ⟨r, h1, h2, _⟩ := (repeat_spec exC10 exC10_wf
+    { name := "whatever", labels := [.num 1, .num 2, .num 3], kind := .i } rfl (.pos (-1)) 2
+    ⟨by decide, Or.inr (by decide)⟩ _ rfl).1 (by decide)
+  exact ⟨r, h1, h2⟩
+
+/-- newaxis in the middle and at the end (`pos = -1`) -/
+example : ∃ r, newaxis exC10 "t" 1 none = .ok r ∧ r.axes = exC10.axes.insertIdx 1 (noneAxis "t") := by
+  obtain ⟨r, h1, h2, _⟩ := (newaxis_spec exC10 exC10_wf "t" (by decide) 1 1 (by decide) (Or.inl rfl)).1 (by decide)
+  exact ⟨r, h1, h2⟩
+
+example : ∃ r, newaxis exC10 "t" (-1) none = .ok r ∧ r.axes = exC10.axes.insertIdx 3 (noneAxis "t") := by
+  obtain ⟨r, h1, h2, _⟩ := (newaxis_spec exC10 exC10_wf "t" (by decide) (-1) 3 (by decide) (Or.inr ⟨rfl, rfl⟩)).1 (by decide)
+  exact ⟨r, h1, h2⟩
+
+/-- broadcast onto (w, y, z, x): `w` is new, `z` is repeated (1 label in `exC10`, 2 in the target),
+`x` and `y` keep `exC10`'s axes.  The only hypothesis that the kernel cannot evaluate is that the
+library's `String.splitOn` leaves the comma-free names alone; it is checked by `#guard` below. -/
+def exC10Target : List Axis :=
+  [{ name := "w", labels := [.num 0, .num 1], kind := .i },
+   { name := "y", labels := [.str "a", .str "b", .str "c"], kind := .U },
+   { name := "z", labels := [.num 7, .num 8], kind := .f },
+   { name := "x", labels := [.num 1, .num 2], kind := .i }]
+
+#guard exC10Target.all (fun t => decide (PlainName t.name))
+
+example (hsplit : ∀ t ∈ exC10Target, PlainName t.name) :
+    ∃ r, broadcast exC10 exC10Target = .ok r ∧ r.dims = ["w", "y", "z", "x"] ∧
+      SameOn ["x", "y"] exC10 r := by
+  obtain ⟨r, h1, h2, _, _, _, _, h7, _⟩ :=
+    (broadcast_spec exC10 exC10_wf (by decide) exC10Target (by decide) (by decide) hsplit).1 (by decide)
+  exact ⟨r, h1, h2, h7⟩
+
+/-- a target that lacks the 3-label dimension `y` is refused -/
+example (hsplit : ∀ t ∈ exC10Target.eraseIdx 1, PlainName t.name) :
+    broadcast exC10 (exC10Target.eraseIdx 1) = .error .value :=
+  (broadcast_spec exC10 exC10_wf (by decide) _ (by decide) (by decide) hsplit).2 (by decide)
+
+/-! ### observations on the mirror outside the hypotheses above (positions out of range)
+
+`Resolves` requires in-range positions.  Outside that domain the mirror's `_get_axes_info` does not
+validate integer keys: with both positions out of range `swapaxes` returns the array unchanged, and
+an out-of-range position in `transpose` is reported as `ValueError`.  (The Python code raises
+`IndexError` in both cases, from `self.axes[idx]` in `_get_axis_info`.) -/
+
+example : (swapaxes exC10 (.pos 7) (.pos 9)).toOption.map (·.dims) = some ["x", "y", "z"] := by decide
+
+example : (match transpose exC10 (some [.pos 7, .pos 0, .pos 1]) with
+    | .error e => some e | .ok _ => none) = some Err.value := by decide
 
 end DimModel
